@@ -137,7 +137,7 @@ def gen_case(streams, tier):
         if wrap == "closure" and (backend in ("cf_procpool", "mp_pool") or fn in ("lambda2", "f2_die")):
             wrap = "partial"
         op = {"api": api, "via": w.choice(["method", "method", "functor"]), "fn": fn,
-              "kwargs": dict(kwargs), "wrap": wrap}
+              "kwargs": dict(kwargs), "wrap": wrap, "iter": w.choice(["list", "list", "tuple", "generator"])}
         if api == "submit":
             op["args"] = [c[0] for c in cols]
         elif api == "map":
@@ -239,12 +239,22 @@ def call(ex, op):
     fnlib = _ENV["fnlib"]
     fn = _temporary(fnlib.FNS[op["fn"]], op.get("wrap", "module"))
     api, kwargs = op["api"], op["kwargs"]
+    how = op.get("iter", "list")
+
+    def as_iter(seq):
+        # built-in map / starmap accept any iterable
+        if how == "tuple":
+            return tuple(seq)
+        if how == "generator":
+            return (x for x in seq)
+        return list(seq)
+
     if api == "submit":
         args = tuple(op["args"])
     elif api == "map":
-        args = tuple(list(c) for c in op["args"])
+        args = tuple(as_iter(c) for c in op["args"])
     else:
-        args = ([tuple(r) for r in op["args"]],)
+        args = (as_iter([tuple(r) for r in op["args"]]),)
     if op["via"] == "functor":
         return ex(api, fn, *args, **kwargs)
     return getattr(ex, api)(fn, *args, **kwargs)
